@@ -334,7 +334,8 @@ def c09_cells(tier="quick"):
     for conc in (False, True):
         ctag = "conc" if conc else "nonconc"
         for bnd in ({"initial": 2}, {"initial": 2, "lower": 0}, {"initial": 0, "lower": 0, "upper": 3},
-                    {"initial": 3, "final": 2}, {"final": 4}, {"initial": 1, "upper": 2, "lower": 0}):
+                    {"initial": 3, "final": 2}, {"final": 4}, {"initial": 1, "upper": 2, "lower": 0},
+                    {"initial": 1, "final": 0}, {"final": 0}, {"initial": 0, "final": 0, "lower": -3}):
             btag = ",".join(f"{k}{v}" for k, v in bnd.items())
             b = dict({"name": "bf", "concurrent": conc}, **bnd)
             # one unloader + one loader
